@@ -24,9 +24,9 @@ theorem listener_survives_any_stream (acl : Acl) (ms : List Decoded) :
 
 /-- only complete heads that the access controller admits are handed to the replicator, in order;
 null / incomplete / refused ones are dropped -/
-theorem only_complete_admitted_heads_loaded (acl : Acl) (hs : List RawHead) (es : List Entry)
-    (h : syncHeads acl hs [] = .load es) : es = (hs.filter (RawHead.loadable acl)).map RawHead.entry :=
-  syncHeads_loads_exactly_loadable acl hs es h
+theorem only_complete_admitted_heads_loaded (acl : Acl) (id : Nat) (hs : List RawHead) (es : List Entry)
+    (h : syncHeads acl id hs [] = .load es) : es = (hs.filter (RawHead.loadable acl id)).map RawHead.entry :=
+  syncHeads_loads_exactly_loadable acl id hs es h
 
 /-- a malformed message never stops a later valid one from being handled: the outcome for a message
 does not depend on what preceded it -/
